@@ -165,3 +165,237 @@ Proof. reflexivity. Qed.
 Example undefined_attr_group_accepted :
   is_ok (translate id_oracle (fun l => l) [mk NGlobal nameA KPlain [{| u_ns := NAttr; u_id := INum 7 |}]]) = true.
 Proof. reflexivity. Qed.
+
+(* ---- C05: a second definition of the same name is an error, in every namespace ---- *)
+Definition key_eqb (n : ns) (i : ident) (e : ns * ident * top) : bool :=
+  let '(n', i', _) := e in ns_eqb n n' && ident_eqb i i'.
+
+Lemma get_app m1 m2 n i : get (m1 ++ m2) n i = match get m1 n i with Some t => Some t | None => get m2 n i end.
+Proof.
+  induction m1 as [|[[n' i'] t'] r IH]; [reflexivity|]. cbn [app get].
+  destruct (ns_eqb n n' && ident_eqb i i'); [reflexivity|exact IH].
+Qed.
+
+(* an update of the entries of one key keeps every key present *)
+Lemma get_map_present (f : top -> top) n0 i0 m n i :
+  get (map (fun e => let '(n', i', t') := e in if ns_eqb n0 n' && ident_eqb i0 i' then (n', i', f t') else e) m) n i
+  = match get m n i with
+    | Some t => Some (if ns_eqb n0 n && ident_eqb i0 i then f t else t)
+    | None => None
+    end.
+Proof.
+  induction m as [|[[n' i'] t'] r IH]; [reflexivity|]. cbn [map get].
+  destruct (ns_eqb n0 n' && ident_eqb i0 i') eqn:E0; cbn [get]; destruct (ns_eqb n n' && ident_eqb i i') eqn:E; try exact IH.
+  - apply andb_prop in E as [E1 E2]. apply ns_eqb_spec in E1. apply ident_eqb_spec in E2. subst. rewrite E0. reflexivity.
+  - apply andb_prop in E as [E1 E2]. apply ns_eqb_spec in E1. apply ident_eqb_spec in E2. subst. rewrite E0. reflexivity.
+Qed.
+
+Definition strict (n : ns) : bool := match n with NComdat | NGlobal | NMeta => true | _ => false end.
+
+(* once a key of a strict namespace is in the index, a later definition with that key makes indexing fail *)
+Lemma index_defs_dup_err : forall l acc n i t, strict n = true -> get acc n i <> None -> In (n, i, t) l ->
+  is_ok (index_defs l acc) = false.
+Proof.
+  induction l as [|[[n' i'] t'] r IH]; intros acc n i t Hs Hg Hin; [contradiction|].
+  cbn [index_defs]. destruct Hin as [E|Hin].
+  - injection E as -> -> ->. destruct (get acc n i) as [prev|]; [|congruence].
+    destruct n; try discriminate; reflexivity.
+  - destruct (get acc n' i') as [prev|] eqn:G.
+    + destruct n'.
+      * destruct (t_kind prev); try reflexivity.
+        apply (IH _ n i t Hs); [|exact Hin]. rewrite get_map_present. destruct (get acc n i); [discriminate|congruence].
+      * reflexivity.
+      * reflexivity.
+      * apply (IH _ n i t Hs); [|exact Hin]. rewrite get_map_present. destruct (get acc n i); [discriminate|congruence].
+      * reflexivity.
+    + apply (IH _ n i t Hs); [|exact Hin]. rewrite get_app. destruct (get acc n i); [discriminate|congruence].
+Qed.
+
+(* whatever indexing returns contains every key it was given and every key it started from *)
+Lemma index_defs_keeps : forall l acc m, index_defs l acc = Ok m ->
+  (forall n i, get acc n i <> None -> get m n i <> None) /\ (forall n i t, In (n, i, t) l -> get m n i <> None).
+Proof.
+  induction l as [|[[n' i'] t'] r IH]; intros acc m H; cbn [index_defs] in H.
+  - injection H as <-. split; [auto|intros ? ? ? []].
+  - assert (forall acc', index_defs r acc' = Ok m -> (forall n i, get acc n i <> None -> get acc' n i <> None) -> get acc' n' i' <> None ->
+              (forall n i, get acc n i <> None -> get m n i <> None) /\ (forall n i t, In (n, i, t) ((n', i', t') :: r) -> get m n i <> None)) as K.
+    { intros acc' H' Hk Hh. destruct (IH acc' m H') as [I1 I2]. split.
+      - intros n i Hg. apply I1, Hk, Hg.
+      - intros n i t [E|Hin]; [injection E as <- <- <-; apply I1, Hh|apply (I2 n i t Hin)]. }
+    destruct (get acc n' i') as [prev|] eqn:G.
+    + destruct n'; try discriminate.
+      * destruct (t_kind prev) eqn:Kd; try discriminate. apply (K _ H).
+        -- intros n i Hg. rewrite get_map_present. destruct (get acc n i); [discriminate|congruence].
+        -- rewrite get_map_present, G. discriminate.
+      * apply (K _ H).
+        -- intros n i Hg. rewrite get_map_present. destruct (get acc n i); [discriminate|congruence].
+        -- rewrite get_map_present, G. discriminate.
+    + apply (K _ H).
+      * intros n i Hg. rewrite get_app. destruct (get acc n i); [discriminate|congruence].
+      * rewrite get_app, G. cbn [get].
+        assert (ns_eqb n' n' && ident_eqb i' i' = true) as -> by (apply andb_true_intro; split; [apply ns_eqb_spec|apply ident_eqb_spec]; reflexivity).
+        discriminate.
+Qed.
+
+Lemma index_defs_app l1 : forall l2 acc, index_defs (l1 ++ l2) acc =
+  match index_defs l1 acc with Ok m => index_defs l2 m | Err => Err | Panic => Panic end.
+Proof.
+  induction l1 as [|[[n i] t] r IH]; intros l2 acc; [reflexivity|]. cbn [app index_defs].
+  destruct (get acc n i) as [prev|]; [|apply IH].
+  destruct n; try reflexivity; [destruct (t_kind prev); try reflexivity|]; apply IH.
+Qed.
+
+(* the theorem: two definitions with the same identifier in the comdat, global or metadata namespace, anywhere
+   in the module and whatever lies between them, and indexing does not return an index *)
+Theorem duplicate_def_is_error : forall l1 n i t1 l2 t2 l3 acc, strict n = true ->
+  is_ok (index_defs (l1 ++ (n, i, t1) :: l2 ++ (n, i, t2) :: l3) acc) = false.
+Proof.
+  intros l1 n i t1 l2 t2 l3 acc Hs. rewrite index_defs_app.
+  destruct (index_defs l1 acc) as [m1| |] eqn:E1; try reflexivity.
+  change ((n, i, t1) :: l2 ++ (n, i, t2) :: l3) with ([(n, i, t1)] ++ (l2 ++ (n, i, t2) :: l3)). rewrite index_defs_app.
+  destruct (index_defs [(n, i, t1)] m1) as [m2| |] eqn:E2; try reflexivity.
+  apply (index_defs_dup_err _ m2 n i t2 Hs).
+  - destruct (index_defs_keeps _ _ _ E2) as [_ K]. apply (K n i t1). left. reflexivity.
+  - apply in_or_app. right. left. reflexivity.
+Qed.
+
+(* types: a second definition is an error unless what is stored under the name is an opaque definition (the
+   accepted case is the recorded finding KF-24) *)
+Lemma index_defs_type_dup_err : forall l acc i t prev, get acc NType i = Some prev -> t_kind prev <> KOpaque ->
+  (forall t', ~ In (NType, i, t') l) -> forall l3, is_ok (index_defs (l ++ (NType, i, t) :: l3) acc) = false.
+Proof.
+  induction l as [|[[n' i'] t'] r IH]; intros acc i t prev Hg Hk Hno l3.
+  - cbn [app index_defs]. rewrite Hg. destruct (t_kind prev); try reflexivity. congruence.
+  - cbn [app index_defs].
+    assert (ns_eqb NType n' && ident_eqb i i' = false) as Hne.
+    { destruct (ns_eqb NType n' && ident_eqb i i') eqn:E; [|reflexivity]. exfalso.
+      apply andb_prop in E as [E1 E2]. apply ns_eqb_spec in E1. apply ident_eqb_spec in E2. subst. apply (Hno t'). left. reflexivity. }
+    assert (forall t'', ~ In (NType, i, t'') r) as Hno' by (intros t'' H; apply (Hno t''); right; exact H).
+    assert (forall f, (if ns_eqb n' NType && ident_eqb i' i then f prev else prev) = prev) as Hsame.
+    { intros f. rewrite (ns_eqb_sym n' NType). destruct (ns_eqb NType n' && ident_eqb i' i) eqn:E; [|reflexivity]. exfalso.
+      apply andb_prop in E as [E1 E2]. apply ns_eqb_spec in E1. apply ident_eqb_spec in E2. subst.
+      rewrite (proj2 (ns_eqb_spec _ _) eq_refl), (proj2 (ident_eqb_spec _ _) eq_refl) in Hne. discriminate. }
+    destruct (get acc n' i') as [p'|] eqn:G.
+    + destruct n'; try reflexivity.
+      * destruct (t_kind p'); try reflexivity.
+        apply (IH _ i t prev); [|exact Hk|exact Hno']. rewrite get_map_present, Hg. f_equal. apply (Hsame (fun _ => t')).
+      * apply (IH _ i t prev); [|exact Hk|exact Hno']. rewrite get_map_present, Hg. reflexivity.
+    + apply (IH _ i t prev); [|exact Hk|exact Hno']. rewrite get_app, Hg. reflexivity.
+Qed.
+
+Theorem duplicate_type_is_error : forall l1 i t1 l2 t2 l3 acc, t_kind t1 <> KOpaque ->
+  (forall t', ~ In (NType, i, t') l1) -> get acc NType i = None -> (forall t', ~ In (NType, i, t') l2) ->
+  is_ok (index_defs (l1 ++ (NType, i, t1) :: l2 ++ (NType, i, t2) :: l3) acc) = false.
+Proof.
+  intros l1 i t1 l2 t2 l3 acc Hk Hno1 Hacc Hno2. rewrite index_defs_app.
+  destruct (index_defs l1 acc) as [m1| |] eqn:E1; try reflexivity.
+  cbn [index_defs].
+  assert (get m1 NType i = None) as G1.
+  { clear - E1 Hno1 Hacc. revert acc m1 E1 Hacc. induction l1 as [|[[n' i'] t'] r IH]; intros acc m1 E1 Hacc; cbn [index_defs] in E1.
+    - injection E1 as <-. exact Hacc.
+    - assert (ns_eqb NType n' && ident_eqb i i' = false) as Hne.
+      { destruct (ns_eqb NType n' && ident_eqb i i') eqn:E; [|reflexivity]. exfalso.
+        apply andb_prop in E as [X1 X2]. apply ns_eqb_spec in X1. apply ident_eqb_spec in X2. subst. apply (Hno1 t'). left. reflexivity. }
+      assert (forall t'', ~ In (NType, i, t'') r) as Hno' by (intros t'' H; apply (Hno1 t''); right; exact H).
+      destruct (get acc n' i') as [p'|] eqn:G.
+      + destruct n'; try discriminate.
+        * destruct (t_kind p'); try discriminate. apply (IH Hno' _ _ E1). rewrite get_map_present, Hacc. reflexivity.
+        * apply (IH Hno' _ _ E1). rewrite get_map_present, Hacc. reflexivity.
+      + apply (IH Hno' _ _ E1). rewrite get_app, Hacc. cbn [get]. rewrite Hne. reflexivity. }
+  rewrite G1.
+  apply (index_defs_type_dup_err l2 (m1 ++ [(NType, i, t1)]) i t2 t1); [|exact Hk|exact Hno2].
+  rewrite get_app, G1. cbn [get]. rewrite (proj2 (ident_eqb_spec _ _) eq_refl). reflexivity.
+Qed.
+Print Assumptions duplicate_def_is_error.
+Print Assumptions duplicate_type_is_error.
+
+(* on the whole translation: no module is returned *)
+Theorem translate_rejects_duplicates : forall (o : oracle) sort_idents l l1 n i t1 l2 t2 l3, strict n = true ->
+  number_globals l 0 = l1 ++ (n, i, t1) :: l2 ++ (n, i, t2) :: l3 -> is_ok (translate o sort_idents l) = false.
+Proof.
+  intros o s l l1 n i t1 l2 t2 l3 Hs E. unfold translate. rewrite E.
+  pose proof (duplicate_def_is_error l1 n i t1 l2 t2 l3 [] Hs) as D.
+  destruct (index_defs _ []); [discriminate|reflexivity|reflexivity].
+Qed.
+Theorem translate_rejects_duplicate_types : forall (o : oracle) sort_idents l l1 i t1 l2 t2 l3, t_kind t1 <> KOpaque ->
+  (forall t', ~ In (NType, i, t') l1) -> (forall t', ~ In (NType, i, t') l2) ->
+  number_globals l 0 = l1 ++ (NType, i, t1) :: l2 ++ (NType, i, t2) :: l3 -> is_ok (translate o sort_idents l) = false.
+Proof.
+  intros o s l l1 i t1 l2 t2 l3 Hk H1 H2 E. unfold translate. rewrite E.
+  pose proof (duplicate_type_is_error l1 i t1 l2 t2 l3 [] Hk H1 eq_refl H2) as D.
+  destruct (index_defs _ []); [discriminate|reflexivity|reflexivity].
+Qed.
+
+(* ---- C04 on the skeleton: the index holds one definition per name, so a use that resolves denotes exactly one ---- *)
+Definition key_of (e : ns * ident * top) : ns * ident := fst e.
+Definition keys (m : amap) : list (ns * ident) := map key_of m.
+
+Lemma get_none_notin m n i : get m n i = None <-> ~ In (n, i) (keys m).
+Proof.
+  induction m as [|[[n' i'] t'] r IH]; cbn [get keys map key_of fst In]; [tauto|].
+  destruct (ns_eqb n n' && ident_eqb i i') eqn:E.
+  - apply andb_prop in E as [E1 E2]. apply ns_eqb_spec in E1. apply ident_eqb_spec in E2. subst. split; [discriminate|intros H; exfalso; apply H; left; reflexivity].
+  - rewrite IH. split; intros H.
+    + intros [X|X]; [|exact (H X)]. injection X as -> ->.
+      rewrite (proj2 (ns_eqb_spec _ _) eq_refl), (proj2 (ident_eqb_spec _ _) eq_refl) in E. discriminate.
+    + intros X. apply H. right. exact X.
+Qed.
+
+Lemma keys_map_keep (g : ns * ident * top -> ns * ident * top) m : (forall e, key_of (g e) = key_of e) -> keys (map g m) = keys m.
+Proof. intros H. unfold keys. rewrite map_map. apply map_ext. exact H. Qed.
+
+Lemma NoDup_app_one {A} (l : list A) x : NoDup l -> ~ In x l -> NoDup (l ++ [x]).
+Proof.
+  induction l as [|y l IH]; intros Hn Hx; cbn; [constructor; [intros []|constructor]|].
+  inversion Hn as [|? ? Hy Hl]; subst. constructor.
+  - intros H. apply in_app_or in H as [H|[H|[]]]; [exact (Hy H)|subst; apply Hx; left; reflexivity].
+  - apply IH; [exact Hl|intros H; apply Hx; right; exact H].
+Qed.
+
+Theorem index_keys_unique : forall l acc m, index_defs l acc = Ok m -> NoDup (keys acc) -> NoDup (keys m).
+Proof.
+  induction l as [|[[n i] t] r IH]; intros acc m H Hn; cbn [index_defs] in H.
+  - injection H as <-. exact Hn.
+  - destruct (get acc n i) as [prev|] eqn:G.
+    + destruct n; try discriminate.
+      * destruct (t_kind prev); try discriminate. apply (IH _ _ H).
+        rewrite keys_map_keep; [exact Hn|]. intros [[n' i'] t']. destruct (ns_eqb NType n' && ident_eqb i i'); reflexivity.
+      * apply (IH _ _ H).
+        rewrite keys_map_keep; [exact Hn|]. intros [[n' i'] t']. destruct (ns_eqb NAttr n' && ident_eqb i i'); reflexivity.
+    + apply (IH _ _ H). unfold keys. rewrite map_app. cbn [map key_of fst].
+      apply NoDup_app_one; [exact Hn|]. apply get_none_notin. exact G.
+Qed.
+
+(* the entry a key denotes is unique: two entries of the index with the same key are the same entry *)
+Corollary index_entry_unique : forall l m, index_defs l [] = Ok m -> forall e1 e2, In e1 m -> In e2 m -> key_of e1 = key_of e2 -> e1 = e2.
+Proof.
+  intros l m H e1 e2 H1 H2 K. pose proof (index_keys_unique l [] m H (NoDup_nil _)) as N. unfold keys in N.
+  clear H. induction m as [|x r IH]; [contradiction|]. cbn [map] in N. inversion N as [|? ? Hx Hr]; subst.
+  destruct H1 as [<-|H1], H2 as [<-|H2]; [reflexivity| | |apply IH; assumption].
+  - exfalso. apply Hx. rewrite K. apply in_map. exact H2.
+  - exfalso. apply Hx. rewrite <- K. apply in_map. exact H1.
+Qed.
+
+Lemma get_in m n i t : get m n i = Some t -> In (n, i, t) m.
+Proof.
+  induction m as [|[[n' i'] t'] r IH]; [discriminate|]. cbn [get].
+  destruct (ns_eqb n n' && ident_eqb i i') eqn:E.
+  - apply andb_prop in E as [E1 E2]. apply ns_eqb_spec in E1. apply ident_eqb_spec in E2. subst. intros [= ->]. left. reflexivity.
+  - intros H. right. apply IH. exact H.
+Qed.
+
+(* use is definition, on the module level: in an accepted module every use (of a type, global or metadata name,
+   from any definition outside the comdat namespace) denotes exactly one entry of the index -- the definition
+   with that namespace and identifier -- whatever the map order *)
+Theorem use_is_def_module (o : oracle) (fair_o : fair o) sort_idents l m old :
+  index_defs (number_globals l 0) [] = Ok old -> translate o sort_idents l = Ok m ->
+  forall n i t u, n <> NComdat -> get old n i = Some t -> In u (t_uses t) -> u_ns u <> NAttr ->
+  exists d, In (u_ns u, u_id u, d) old /\ forall e, In e old -> key_of e = (u_ns u, u_id u) -> e = (u_ns u, u_id u, d).
+Proof.
+  intros Hidx Htr n i t u Hn Hg Hu Ha.
+  pose proof (accepted_has_no_undefined_use o fair_o sort_idents l m old Hidx Htr n i t u Hn Hg Hu Ha) as D.
+  destruct (get old (u_ns u) (u_id u)) as [d|] eqn:G; [|congruence].
+  exists d. split; [apply get_in; exact G|].
+  intros e He K. apply (index_entry_unique _ _ Hidx e _ He (get_in _ _ _ _ G)). exact K.
+Qed.
+Print Assumptions use_is_def_module.
